@@ -12,9 +12,7 @@ def fixed_scripts():
     """Hand-written corner cases the random generator reaches rarely."""
     from coregen import I, S, V, B, emit, dw, thunk, callcc, lam, app, begin, set_, let, letstar, when, prim, guard, raise_, raisec, weh, paramz, mkparam, and_
     out = []
-    # escape from inside a before thunk
-    out.append(begin(emit(callcc(lam(["k"], None, dw(thunk(emit(I(101)), app(V("k"), [I(1)])), thunk(emit(I(1001)), I(2)), thunk(emit(I(201))))))), emit(S("end"))))
-    # escape from inside an after thunk of an outer wind while unwinding
+    # throw out of two nested winds from the inner body (after thunks only emit)
     out.append(begin(emit(callcc(lam(["k"], None,
         dw(thunk(emit(I(101))), thunk(dw(thunk(emit(I(102))), thunk(app(V("k"), [I(5)])), thunk(emit(I(202)))), I(0)), thunk(emit(I(201))))))), emit(S("end"))))
     # generator style re-entry into two nested winds, twice
@@ -37,6 +35,7 @@ def fixed_scripts():
                   thunk(dw(thunk(emit(I(101))), thunk(prim("+", raisec(I(950)), I(1))), thunk(emit(I(201))))))))))
     # non-continuable raise whose handler returns: secondary error reaches the outer handler / top level
     out.append(begin(emit(guard("e", [(B(True), S("secondary"))], weh(lam(["x"], None, I(1)), thunk(raise_(I(5)), I(0))))), emit(S("end"))))
+    # (escapes out of / into a before or after thunk ITSELF are not generated: R7RS 6.10 leaves their effect unspecified)
     return out
 
 
